@@ -80,6 +80,21 @@ func ShrinkingMap.GetOrCreate
   ensures forall k K :: k != key ==> (has(s.m, k) <==> old(has(s.m, k))) && s.m[k] == old(s.m[k])
   ensures unlocked(s.mutex)
 
+-- Compute: the value under the key becomes what the (pure) function makes of the current one - the zero value and false
+-- for an absent key - and that is what is returned; nothing else changes
+func ShrinkingMap.Compute
+  opt sequential
+  opt invokes updateFunc
+  requires s != nil && unlocked(s.mutex) && updateFunc != nil
+  callback updateFunc(cur, ex) (r)
+    opt pure
+  modifies map(s.m)
+  ensures has(s.m, key) && s.m[key] == updatedValue && s.m == old(s.m)
+  ensures updatedValue == cbres(updateFunc, old(has(s.m, key)) ? old(s.m[key]) : zero(V), old(has(s.m, key)))
+  ensures forall k K :: k != key ==> (has(s.m, k) <==> old(has(s.m, k))) && s.m[k] == old(s.m[k])
+  ensures len(s.m) == old(len(s.m)) + (old(has(s.m, key)) ? 0 : 1)
+  ensures unlocked(s.mutex)
+
 func ShrinkingMap.Has
   opt sequential
   requires s != nil && unlocked(s.mutex)
